@@ -1743,8 +1743,9 @@ pub fn from_reader_with_options<'a, R: std::io::Read + 'a, T: DeserializeOwned>(
     );
 
     // Helper to attach snippet to an error using the RingReader's context
+    let with_snippet = options.with_snippet;
     let attach_snippet = |e: Error| -> Error {
-        if crop_radius == 0 {
+        if !with_snippet || crop_radius == 0 {
             return e;
         }
         match shared_ring.get_recent() {
